@@ -154,7 +154,7 @@ def upstream_values(n, version, with_ctx):
         elif not with_ctx:
             out.append(d)
         elif with_ctx == "big":
-            out.append((d, {"v": version, "i": i, "pad": "x" * 900}))
+            out.append((d, {"v": version, "i": i, "pad": "x" * 3000}))
         elif with_ctx == "repeat":
             # string objects at several places of a value: one common to all values of the run, one of its own
             s = "tag-%s" % (version,)
@@ -646,7 +646,7 @@ def history_case(draw, big=False):
     nstages = len(stages)
     names = ["A", "B"] if two else ["A"]
     fallible = [-1] + [i for i, r in enumerate(stages) if r[0] != "cache"]
-    case = {"stages": stages, "n": n, "ctx": draw(st.sampled_from([False, True, True, "shared", "big", "fragile", "repeat", "repeat"])),
+    case = {"stages": stages, "n": n, "ctx": draw(st.sampled_from([False, True, True, "shared", "big", "big", "fragile", "repeat", "repeat"])),
             "protocol": draw(st.sampled_from([None, None, 0, 4, 4, 5]))}
     if draw(st.integers(0, 3)) == 0:
         case["templated"] = True
